@@ -354,3 +354,73 @@ def r13_5(ctx):
                                        f"in that version's order")
                                 break
             ctx.require(not bad, key, f"versions {first} then {second} on one application object: {bad}", func=f, trace=p.trace(14))
+
+
+@rule("R13.6", ["C13"], "T-FUN", floor=3)
+def r13_6(ctx):
+    """The coordinator's own address stays usable while the network information is being (re)loaded: load_network_info runs on a
+    live network (every periodic backup reloads it) and is suspended at each of its NCP reads; at every one of those suspension
+    points the node info the callback path reads (state.node_info.nwk, the destination of incoming unicasts) is either the one
+    from before the reload or the newly read one - never a placeholder object whose address has not been filled in yet."""
+    repo = ctx.repo
+    g = repo.func(f"{APP}:ControllerApplication.load_network_info")
+    ctx.fn(g)
+    es = repo.cls(NAMED, "EmberStatus").members()
+    csb = repo.cls(NAMED, "EmberCurrentSecurityBitmask")
+    nt = repo.cls(NAMED, "EmberNodeType").members()["COORDINATOR"]
+    holder, seen = {}, []
+
+    def observe(what):
+        me = holder.get("me")
+        st = me.fields.get("state") if isinstance(me, Obj) else None
+        ni = st.fields.get("node_info") if isinstance(st, Obj) else None
+        if not isinstance(ni, Obj):
+            raise AnalysisError(f"state.node_info is not an object while load_network_info waits for {what}: {ni!r}")
+        seen.append((what, ni.fields.get("nwk", "<not set>")))
+
+    def obs(pattern, outcome):
+        def m(px, t, a, k, fr):
+            observe(pattern)
+            return outcome() if callable(outcome) else outcome
+        return (pattern, m)
+
+    sec = Obj(TypeRef("State"), {"bitmask": Member(csb, "bitmask_0x0004", 0x0004)}, tag="secstate")
+    models = [obs("ezsp.getNetworkParameters", Outcomes(OK((es["SUCCESS"], nt, Sym("nwk_params"))))),
+              obs("ezsp.getNodeId", Outcomes(OK((Sym("new_nwk"),)))), obs("ezsp.getEui64", Outcomes(OK((Sym("ieee"),)))),
+              obs("self._get_board_info", Outcomes(OK((None, None, None)))),
+              obs("ezsp.getConfigurationValue", Outcomes(OK((es["SUCCESS"], 5)))),
+              obs("ezsp.get_network_key", lambda: Outcomes(OK(Obj(TypeRef("Key"), {"key": Sym("nk")}, tag="nk")))),
+              obs("ezsp.get_tc_link_key", lambda: Outcomes(OK(Obj(TypeRef("Key"), {"key": Obj(TypeRef("KeyData"), {}, tag="tclk.key")}, tag="tclk")))),
+              obs("ezsp.getCurrentSecurityState", Outcomes(OK((es["SUCCESS"], sec)))),
+              obs("self._ensure_network_running", Outcomes(OK(False))),
+              ("zigpy.types.KeyData", lambda px, t, a, k, fr: Obj(TypeRef("KeyData"), {"v": a[0]}, tag="wellknown")),
+              ("*.NodeInfo", lambda px, t, a, k, fr: Obj(TypeRef("NodeInfo"), dict(k), tag="new_node_info")),
+              ("*.NWK", lambda px, t, a, k, fr: Sym(f"NWK({getattr(a[0], 'tag', a[0])})") if a else Sym("NWK()"))]
+    px = PX(repo, models=models, inline=same_class(), max_paths=200,
+            facts={"(self.state.node_info.logical_type == zigpy.zdo.types.LogicalType.Coordinator)": True})
+
+    def setup():
+        seen.clear()
+        node = Obj(TypeRef("NodeInfo"), {"nwk": Sym("old_nwk"), "ieee": Sym("old_ieee"), "logical_type": Sym("lt")}, tag="node_info")
+        state = Obj(TypeRef("State"), {"node_info": node, "network_info": Sym("old_network_info"), "counters": Sym("counters")}, tag="state")
+        holder["me"] = self_obj(app_cls(ctx), {"_ezsp": Obj(TypeRef("EZSP"), {"ezsp_version": 8}, tag="ezsp"), "state": state})
+        return holder["me"], {"load_devices": False}
+
+    def is_addr(v):
+        return v == Sym("old_nwk") or "new_nwk" in repr(v)
+
+    n = 0
+    for p in px.explore(g, setup):
+        ctx.paths += 1
+        n += 1
+        bad = [(w, v) for w, v in seen if not is_addr(v)]
+        ctx.require(not bad, "own-address-during-reload", f"while load_network_info waits for {bad[0][0] if bad else ''} the own network address read by the callback path is "
+                    f"{bad[0][1] if bad else ''!r} - neither the address from before the reload nor the newly read one; an incoming unicast handled at that moment is "
+                    "addressed to a placeholder", func=g, trace=p.trace(20))
+        if p.terminal == "return":
+            st = p.store["self"].get("state")
+            ni = st.fields.get("node_info") if isinstance(st, Obj) else None
+            v = ni.fields.get("nwk") if isinstance(ni, Obj) else None
+            ctx.require(v is not None and "new_nwk" in repr(v), "own-address-after-reload", f"after the reload the own address is {v!r}, not the one just read from the NCP", func=g)
+            ctx.require(len(seen) >= 5, "reload-suspension-points", f"only {len(seen)} NCP reads observed", func=g)
+    ctx.anchor(n >= 1, "load_network_info explored")
